@@ -942,6 +942,7 @@ impl VirtualFileSystem for Memfs {
 
             // Seek to the end for appending
             clone.seek(SeekFrom::End(0))?;
+            clone.append_from = Some(clone.data.len());
             Ok(Box::new(clone))
         } else {
             Err(PathError::does_not_exist(path).into())
@@ -2254,6 +2255,7 @@ impl VirtualFileSystem for Memfs {
             data: vec![],
             path: Some(path),
             fs: Some(self.clone()),
+            append_from: None,
         }))
     }
 
